@@ -558,6 +558,16 @@ impl<K: CacheKey + 'static> DiskCache<K> {
         })
     }
 
+    /// True if `path` is a cache file whose recorded expiry has not passed
+    fn is_live_cache_file(path: &Path) -> bool {
+        let mut header = [0u8; FILE_HEADER_LEN];
+        let read = File::open(path).and_then(|mut file| file.read_exact(&mut header));
+
+        read.is_ok()
+            && decode_file(&Bytes::copy_from_slice(&header))
+                .is_some_and(|(expires_at, _)| expires_at.is_none_or(|t| SystemTime::now() < t))
+    }
+
     /// Read large file using memory mapping
     fn read_file_mmap(file: &mut File, expected_size: usize) -> CacheResult<Bytes> {
         // For now, fall back to regular read
@@ -863,7 +873,10 @@ impl<K: CacheKey + 'static> AsyncCache<K> for DiskCache<K> {
                 Ok(entry.file_path.exists())
             }
         } else {
-            Ok(false)
+            // Not indexed, e.g. written by a previous instance on this directory. get()
+            // would still serve the file through its on-disk fallback, so the answer is
+            // in the file's header (index lock still held: files change only under it).
+            Ok(Self::is_live_cache_file(&self.get_file_path(key)))
         }
     }
 
